@@ -175,14 +175,15 @@ def make_modules(sim):
         pass
 
     class Queue:
-        def __init__(self, *a, **kw):
+        def __init__(self, maxsize=0, *a, **kw):
             self.items = []
+            self.maxsize = maxsize
 
         def put(self, item, *a, **kw):
             me = sim.me()
             # a scheduling point of its own: a thread can be preempted between releasing a lock and the put that
-            # follows (or between the test that led here and the put)
-            sim.sync(lambda: True)
+            # follows (or between the test that led here and the put); a bounded queue blocks while it is full
+            sim.sync((lambda: True) if self.maxsize <= 0 else (lambda: len(self.items) < self.maxsize))
             self.items.append(item)
             if item is not None:
                 sim.region_put.add(me)
